@@ -760,14 +760,17 @@ def everyNth {α : Type} (step : Nat) : List α → Nat → List α
   | a :: as, 0 => a :: everyNth step as (step - 1)
   | _ :: as, n + 1 => everyNth step as n
 
+/-- Python's index normalisation: negative indices count from the end. -/
+def pyIndex (i : Int) (len : Nat) : Option Nat :=
+  let j : Int := if i < 0 then i + len else i
+  if j < 0 then none else some j.toNat
+
 def applySlice (s : SliceSpec) (l : Pop) : M Pop :=
   match s with
   | .index i =>
-    let j : Int := if i < 0 then i + l.length else i
-    if j < 0 then fail .index
-    else match l[j.toNat]? with
-         | some x => pure [x]
-         | none => fail .index
+    match (pyIndex i l.length).bind (fun n => l[n]?) with
+    | some x => pure [x]
+    | none => fail .index
   | .range start stop step =>
     let a := min (start.getD 0) l.length
     let b := min (stop.getD l.length) l.length
